@@ -223,6 +223,10 @@ func dscenarios(quick bool) []dscenario {
 			[]string{"w 30 34", "w 40 48", "d 30 33", "reopen"}, [][]string{{"gc"}, {"w 10 12"}, {"r"}}},
 		{"D5 write into the gap between two domains || delete spanning both domains", 0, 0,
 			[]string{"w 10 20", "w 30 40"}, [][]string{{"w 22 28"}, {"d 15 35"}}},
+		{"D6 two writers commit overlapping ranges (exactly one may succeed)", 0, 0,
+			[]string{"w 40 50"}, [][]string{{"w 10 20"}, {"w 15 25"}}},
+		{"D7 two writers commit the same range || a third writes next to it", 0, 0,
+			nil, [][]string{{"w 10 20"}, {"w 10 20"}, {"w 20 30"}}},
 		{"D3 commit(persist) of a new first domain || commit(persist) of a new last domain || delete in the middle", 0, 0,
 			[]string{"w 30 40", "w 50 60"}, [][]string{{"w 10 20"}, {"w 70 80"}, {"d 32 38"}}},
 	}
@@ -247,9 +251,11 @@ func dapply(db *domain.DB, op string) error {
 			return err
 		}
 		if _, err := w.Write(data); err != nil {
+			_ = w.Close()
 			return err
 		}
 		if err := w.Commit(cz.Ctx, telem.TimeStamp(b)); err != nil {
+			_ = w.Close()
 			return err
 		}
 		return w.Close()
@@ -326,6 +332,11 @@ func dbody(sc dscenario) schedx.Body {
 				for _, op := range ops {
 					if err := dapply(db, op); err != nil {
 						errs[i] = err.Error()
+						// a conflicting write is refused when the writer is opened or when it
+						// commits, depending on who got there first: one class
+						if strings.Contains(errs[i], "overlaps with existing data") {
+							errs[i] = op + ": refused, overlaps with existing data"
+						}
 						return
 					}
 				}
@@ -565,7 +576,9 @@ func TestCheck(t *testing.T) {
 			s0, _, _ := schedx.RunOnce(t, schedx.Config{Body: sc.body}, nil)
 			fmt.Fprintf(os.Stderr, "TRACE %v\n", s0.Trace)
 		}
-		if strings.Contains(ref, "error") || strings.Contains(ref, "panic") {
+		// D6 and D7 are made of conflicting writes: exactly one of them is refused in every serial order
+		conflicting := strings.HasPrefix(sc.name, "D6") || strings.HasPrefix(sc.name, "D7")
+		if !conflicting && (strings.Contains(ref, "error") || strings.Contains(ref, "panic")) {
 			r.HarnessError("scenario %s: sequential reference run is not clean: %s", sc.name, ref)
 			continue
 		}
